@@ -37,6 +37,8 @@ def from_json(j):
         return ct.TimestampType(dt)
     if t == "duration":
         import datetime
+        if "text" in j:
+            return ct.DurationType(ct.StringType(j["text"]))  # built from its text (units down to ns)
         return ct.DurationType(datetime.timedelta(microseconds=j["us"]))
     raise ValueError(j)
 
@@ -68,6 +70,8 @@ def ref_eq(a, b):
     if t == "null":
         return True
     if t in ("timestamp", "duration"):
+        if "us" not in a or "us" not in b:
+            return None  # text-built duration: no reference value, only the laws
         return a["us"] == b["us"]
     if t == "list":
         if len(a["v"]) != len(b["v"]):
@@ -105,7 +109,7 @@ def ref_lt(a, b):
     if t == "bytes":
         return list(a["v"]) < list(b["v"])
     if t in ("timestamp", "duration"):
-        return a["us"] < b["us"]
+        return (a["us"] < b["us"]) if ("us" in a and "us" in b) else None
     return None
 
 
